@@ -58,8 +58,8 @@ CLAIMED.update({
 
 CLAIMED.update({
     "C03": dict(
-        text="Gallina model of KernelDG's dependency scan (is_read / is_written / find_depending / create_DG), generic in the numeric instance and in the register-alias test. Proved for every kernel: an edge A->B that is not a store-to-load edge exists iff B is a later instruction that reads a register (or, only with flag dependencies, a flag) written by A with no writer strictly between; edges point forward; flags never produce edges without -f; edge weights are producer latency without load stage / index-write-back latency / + forwarding. The model is tied to the code bit for bit (edge sets and weights) on synthetic ISA databases with random roles, hidden flag operands, zero idioms, default roles and write-back addressing, and on shipped kernels x models; the edge set is checked against an independent architectural RAW relation computed from the generator's role tables.",
-        note="Trusted: Coq kernel; the per-line semantic operand sets are the implementation's own (assign_src_dst is exercised against architectural roles by the oracle, not modelled); register alias test = definition regenerated from source (C12).",
+        text="Gallina model of KernelDG's dependency scan (is_read / is_written / find_depending / create_DG), generic in the numeric instance and in the register-alias test. Proved for every kernel: an edge A->B that is not a store-to-load edge exists iff B is a later instruction that reads a register (or, only with flag dependencies, a flag) written by A with no writer strictly between; edges point forward; flags never produce edges without -f; edge weights are producer latency without load stage / index-write-back latency / + forwarding. The role assignment (assign_src_dst: ISA entry roles, hidden operands, zero idioms, default rules, AArch64 write-back, HAS_LD/HAS_ST) is modelled too (Model/Roles.v) with theorems: a zero idiom with equal register operands reads nothing, default roles, read-modify-write operands land in src_dst, every pre/post-indexed base is registered as read+written. Both models are tied to the code bit for bit (role sets per line, edge sets and weights) on synthetic ISA databases with random roles, hidden flag operands, zero idioms, default roles and write-back addressing, and on shipped kernels x models; the edge set is checked against an independent architectural RAW relation computed from the generator's role tables.",
+        note="Trusted: Coq kernel; the ISA entry applied to each line is the implementation's own lookup result (the matcher is C07's subject); register alias test = definition regenerated from source (C12).",
         technique="Coq proof by induction over the instruction list (scan = RAW) + bit-exact differential correspondence of the dependency graph",
         ref="DESIGN.md C03"),
     "C04": dict(
